@@ -650,27 +650,6 @@ func main() {
 		out.Count("preemptions", lib.SizeBucket(preempt))
 		out.Count("submitters", strconv.Itoa(len(sc.submitters)))
 	}
-	// second phase: free-running stress with perturbation at the points (no model involved; oracles on the observations alone)
-	nfree := 100
-	if lib.Tier() == "thorough" {
-		nfree = 1200
-	}
-	if v := os.Getenv("VERIF_FREE"); v != "" {
-		nfree, _ = strconv.Atoi(v)
-	}
-	ffails, fstats := runFree(rnd, nfree, profile, outPath)
-	for _, f := range ffails {
-		out.Fail(-1, f.Oracle, f.Detail)
-	}
-	for k, v := range fstats {
-		m := out.Distribution["free-running"]
-		if m == nil {
-			m = map[string]int{}
-			out.Distribution["free-running"] = m
-		}
-		m[strings.TrimPrefix(k, "free:")] = v
-	}
-	out.Notes = append(out.Notes, fmt.Sprintf("free-running phase: %d scenarios (lifecycle, burst, count, stop-during-run, expired-then-cleared) under the Go scheduler with yields/sleeps injected at the verifPoints; oracles evaluated on observations only; interleavings not replayable bit for bit", nfree))
 	out.Notes = append(out.Notes, "profile="+profile+"; one thread runs between two points; stability decided from goroutine states; white-box snapshot before every grant")
 	out.Write(outPath)
 }
